@@ -196,6 +196,8 @@ def run(tier: str) -> int:
         if len(samples) < 4 and i % 37 == 0:
             samples.append({"nodes": nodes, "detail": detail, "outcome": pv["outcome"], "records": [r.get("record_type") for r in t1["records"]]})
     exotic_payloads(rep, stats)
+    hostile_data(rep, stats)
+    launch_outcomes(rep, stats)
     exotic_parameters(rep, stats)
     failing_nodes(rep, stats)
     rep.coverage.update({
@@ -264,10 +266,86 @@ def exotic_payloads(rep, stats):
                                       {"kind": kind, "where": where, "detail": detail, "untraced": plain, "traced": traced})
 
 
+def hostile_data(rep, stats):
+    """Data objects whose special methods raise or lie (len() of a 0-d array, repr of a proxy, a negative __len__): tracing
+    inspects the live data; whatever it calls must not change what the run returns or raises."""
+    pipegen.setup()
+    from semantiva.pipeline import Pipeline, Payload
+    from semantiva.context_processors import ContextType
+    from semantiva.trace.drivers.jsonl import JsonlTraceDriver
+    from props.components import HOSTILE, TData
+    for kind in HOSTILE:
+        for where in ("input", "output", "middle"):
+            def payload():
+                if where == "input":
+                    return [{"processor": "TOp0"}], Payload(HOSTILE[kind](["h-in"]), ContextType({"k": 1}))
+                if where == "output":
+                    return [{"processor": "TOpMakeHostile", "parameters": {"kind": kind}}], Payload(TData(["plain"]), ContextType({"k": 1}))
+                return ([{"processor": "TOp0"}, {"processor": "TOpMakeHostile", "parameters": {"kind": kind}}, {"processor": "TOp0"},
+                         {"processor": "TProbe", "context_key": "seen"}], Payload(TData(["plain"]), ContextType({})))
+
+            def outcome(trace):
+                nodes, pl = payload()
+                try:
+                    pipe = Pipeline(nodes, trace=trace) if trace is not None else Pipeline(nodes)
+                    out = pipe.process(pl)
+                    return ("ok", type(out.data).__name__, json.dumps(pipegen.enc(out.data.data), default=str, sort_keys=True),
+                            sorted(out.context.to_dict()))
+                except BaseException as exc:  # noqa: BLE001
+                    return ("raises", type(exc).__name__, str(exc)[:120])
+            plain = outcome(None)
+            for detail in tracegen.DETAILS:
+                with rt.tempdir() as d:
+                    traced = outcome(JsonlTraceDriver(str(d / "t.jsonl"), detail=detail))
+                stats["hostile_data_runs"] = stats.get("hostile_data_runs", 0) + 1
+                if traced != plain:
+                    rep.add_violation(f"tracing-changes-result:hostile-data:{kind}:{where}:{detail}",
+                                      f"with a trace driver attached (detail={detail}) a run whose {where} data is an object whose {kind} "
+                                      "returns or raises something else than the untraced run",
+                                      {"kind": kind, "where": where, "detail": detail, "untraced": plain, "traced": traced})
+
+
+def launch_outcomes(rep, stats):
+    """A run-space launch through the CLI, untraced and traced (single file / directory x detail levels): the exit status and
+    what the runs wrote must be the same — the driver is shared by all runs of a launch and by the launch's own lifecycle records."""
+    import yaml
+    for variant in ("all-succeed", "second-run-fails", "one-run"):
+        outcomes = {}
+        for how in ["untraced"] + [f"{mode}:{detail}" for mode in ("file", "dir") for detail in tracegen.DETAILS]:
+            with rt.tempdir() as d:
+                sink = str(d / "sink.txt")
+                vs = ["r0", "r1", "r2"] if variant != "one-run" else ["r0"]
+                bad = ["fine"] * len(vs)
+                if variant == "second-run-fails":
+                    bad[1] = "boom"
+                cfg = {"extensions": ["props.components"],
+                       "pipeline": {"nodes": [{"processor": "TSource"}, {"processor": "TFailIf"}, {"processor": "TOp0"},
+                                              {"processor": "TProbe", "context_key": "seen"}, {"processor": "TSink", "parameters": {"path": sink}}]},
+                       "run_space": {"blocks": [{"mode": "by_position", "context": {"v": vs, "bad": bad}}]}}
+                if how != "untraced":
+                    mode, detail = how.split(":")
+                    out = d / ("trace.jsonl" if mode == "file" else "trace_dir")
+                    cfg["trace"] = {"driver": "jsonl", "output_path": str(out), "options": {"detail": detail}}
+                (d / "cfg.yaml").write_text(yaml.safe_dump(cfg, sort_keys=False))
+                code, so, se = rt.cli(["run", str(d / "cfg.yaml"), "-q"], cwd=d)
+                written = (d / "sink.txt").read_text() if (d / "sink.txt").exists() else None
+                outcomes[how] = (code, written, "uncaught" if "uncaught exception leaving" in se else "")
+                stats["launch_outcome_runs"] = stats.get("launch_outcome_runs", 0) + 1
+        base = outcomes["untraced"]
+        for how, got in outcomes.items():
+            if got != base:
+                rep.add_violation(f"tracing-changes-launch:{variant}:{how.split(':')[0]}",
+                                  f"a run-space launch ({variant}) traced as {how} ends differently from the untraced launch",
+                                  {"variant": variant, "traced_as": how, "untraced": base, "traced": got})
+
+
 EXOTIC_VALUES = {
     "nan": float("nan"), "inf": float("inf"), "-inf": float("-inf"), "lone-surrogate": "r\udce9sultat", "astral": "\U0001d6fc-\U0001f600",
     "huge-int": 10 ** 30, "bytes": b"ab\xff", "tuple": (1, 2), "set": {1}, "complex": 1 + 2j, "long-string": "x" * 5000,
     "control-chars": "a\x00b\x1fc\n", "nested-nan": {"k": [float("nan")]}, "empty-string": "", "multi-line": "first line\nsecond line\n",
+    # mappings whose keys cannot be ordered against each other, or are not strings at all
+    "mixed-key-dict": {1: "a", "b": 2}, "none-key-dict": {None: 1, "a": 2}, "tuple-key-dict": {(1, 2): 3}, "int-key-dict": {2: "x", 10: "y"},
+    "nested-mixed-keys": {"outer": [{1: "a", "b": 2}]}, "bool-int-keys": {True: "t", 2: "two"}, "float-str-keys": {1.5: "f", "s": 0},
 }
 FAILING_NODES = ["TFail", "TFailEmpty", "TFailKeyObj", "TFailKw", "TFailKI"]
 
